@@ -209,6 +209,7 @@ func init() {
 		ruleRadix(prog, rep)
 		ruleAppendRetain(prog, rep, "jp")
 		rulePresenceByNil(prog, rep)
+		ruleTruthMatrix(prog, rep) // "filter keeping the elements whose script is true"
 	}
 	rules["C11"] = func(prog *Program, rep *Report) {
 		rep.Explain("C11 decides sibling clauses across evaluators and representations: the cells of Get, FirstFound, Has, GetNodes and FirstNode keep the index-selection fingerprints they share today across containers and across evaluators (e.g. Has and FirstFound select indexes identically for slices). Not covered: correctness of the shared skeleton, reflection lookup semantics, Locate/Walk normalised paths.")
